@@ -676,10 +676,31 @@ fn out_items_prefix_aware(input: &TokenStream, output: &TokenStream) -> Option<S
             TokenTree::Group(g) if g.delimiter() == proc_macro2::Delimiter::Brace => g.stream().into_iter().collect(),
             _ => return None,
         };
-        if body_o.len() < body_i.len() || !ts_eq(&body_i, &body_o[..body_i.len()]) {
-            return None;
-        }
-        let inner_gen = parse_items(&body_o[body_i.len()..])?;
+        // the generated part of the module body: normally everything after the verbatim copy of the input body; when the
+        // macro re-printed some of the user's items (a fn signature that syn normalises), the longest suffix that parses as
+        // exactly `trait` + `impl` — the user's part before it stays verbatim tokens either way
+        let split = if body_o.len() >= body_i.len() && ts_eq(&body_i, &body_o[..body_i.len()]) {
+            body_i.len()
+        } else {
+            let mut found = None;
+            for p in (0..body_o.len()).rev() {
+                let ts: TokenStream = body_o[p..].iter().cloned().collect();
+                if let Ok(f) = syn::parse2::<syn::File>(ts) {
+                    if f.attrs.is_empty()
+                        && f.items.len() == 2
+                        && matches!(f.items[0], syn::Item::Trait(_))
+                        && matches!(f.items[1], syn::Item::Impl(_))
+                    {
+                        found = Some(p);
+                    } else if f.items.len() > 2 {
+                        break;
+                    }
+                }
+            }
+            found?
+        };
+        let user_part: Vec<TokenTree> = body_o[..split].to_vec();
+        let inner_gen = parse_items(&body_o[split..])?;
         let after = parse_items(&o[n..])?;
         // attrs / vis / name of the module from an empty-bodied copy
         let mut head: Vec<TokenTree> = i[..n - 1].to_vec();
@@ -689,8 +710,8 @@ fn out_items_prefix_aware(input: &TokenStream, output: &TokenStream) -> Option<S
             return None;
         }
         let mut inner: Vec<String> = vec![];
-        if !body_i.is_empty() {
-            inner.push(other_of(&body_i));
+        if !user_part.is_empty() {
+            inner.push(other_of(&user_part));
         }
         inner.extend(inner_gen);
         let mut items = vec![format!(
@@ -713,9 +734,8 @@ fn out_items_prefix_aware(input: &TokenStream, output: &TokenStream) -> Option<S
             TokenTree::Group(g) => g.stream().into_iter().collect(),
             _ => return None,
         };
-        if !ts_eq(&body_i, &body_o) {
-            return None;
-        }
+        // the inherent impl holds the user's items; the macro re-prints the fns among them (a signature that syn normalises
+        // makes the copy differ from the input): the body is kept as verbatim tokens either way, C02 compares it with the input
         let mut head: Vec<TokenTree> = o[..k].to_vec();
         head.push(TokenTree::Group(proc_macro2::Group::new(proc_macro2::Delimiter::Brace, TokenStream::new())));
         let im: syn::ItemImpl = syn::parse2(head.into_iter().collect()).ok()?;
@@ -723,7 +743,7 @@ fn out_items_prefix_aware(input: &TokenStream, output: &TokenStream) -> Option<S
             return None;
         }
         let gen = parse_items(&o[k + 1..])?;
-        let inner: Vec<String> = if body_i.is_empty() { vec![] } else { vec![format!("(iother {})", toks(body_i.iter().cloned().collect()))] };
+        let inner: Vec<String> = if body_o.is_empty() { vec![] } else { vec![format!("(iother {})", toks(body_o.iter().cloned().collect()))] };
         let mut items = vec![format!(
             "(impl {} {} {} {} {} {})",
             attrs(&im.attrs),
